@@ -97,7 +97,10 @@ class _CrashingEpochStop(ml.EpochStop):
         w.seam("stop")
         w.log.add("epoch", [current_epoch, None if train_loss is None else round(float(train_loss), 5)])
         if self._crash is not None and current_epoch == self._crash["epoch"]:
-            w.crash_plan = {w.seam_calls + self._crash["offset"]: "crash"}
+            if "in_checkpoint_write" in self._crash:
+                w.disk.crash_at_write = w.disk.write_calls + self._crash["in_checkpoint_write"]
+            else:
+                w.crash_plan = {w.seam_calls + self._crash["offset"]: "crash"}
         return super().stop(model, current_epoch, train_loss, val_loss, epoch_time)
 
 
@@ -260,6 +263,9 @@ def gen_plan(rng, profile: dict, seed: int) -> dict:
                 # bias crashes to land around the checkpoint written at the end of every 10th epoch
                 e = rng.choice([9, 10, 10, 11, 11, 19]) if epochs >= 10 and rng.random() < 0.8 else rng.randint(0, max(0, epochs - 1))
                 crash = {"epoch": min(e, epochs - 1), "offset": rng.randint(1, 14), "seed": rng.getrandbits(24)}
+                if epochs >= 10 and rng.random() < 0.45:
+                    # die inside the k-th raw write of the checkpoint that the epoch after `epoch` writes
+                    crash = {"epoch": rng.choice([9, 19]) if epochs >= 20 else 9, "in_checkpoint_write": rng.randint(1, 4), "seed": rng.getrandbits(24)}
             seg = {
                 "epochs": epochs, "opt": opt, "lr": lr, "wd": rng.choice([1e-2, 0.1]), "ndev": ndev, "B": B, "L": nb * B,
                 "loss": rng.choice(["smse", "smse", "timestep"]), "key": rng.getrandbits(31), "val": rng.random() < 0.3, "wandb": rng.random() < 0.3,
@@ -375,6 +381,8 @@ def _exec_train(plan, ctx):
             VX = make_data(cfg["in_sig"], seg["B"], D, cfg["spatial"], zoo.torus_flags(cfg), plan["data_seed"] + 2000 + si)
             VY = make_data(cfg["out_sig"], seg["B"], D, cfg["spatial"], zoo.torus_flags(cfg), plan["data_seed"] + 3000 + si)
         world.crash_plan = {}
+        world.disk.crash_at_write = None
+        world.disk.buffer_size = 2048  # a checkpoint takes several raw writes
         world.clock.plan = []
         if seg["clock"] == "jumps":
             world.clock.plan = [1e6 if i % 3 == 0 else 20.0 for i in range(200)]
@@ -419,6 +427,10 @@ def _exec_train(plan, ctx):
             kinds.append("crash")
             outcome = world.disk.crash(make_rng((seg.get("crash") or {}).get("seed", seg["restart_key"])))
             fresh = zoo.build_model(cfg, jax.random.PRNGKey(seg["restart_key"]))
+            world.disk.crash_at_write = None
+            rr = make_rng(seg["restart_key"])
+            if rr.random() < 0.4:  # short reads while restoring: transparent for the unchanged buffered reader
+                world.disk.read_faults = {world.disk.read_calls + k: "short" for k in (1, 2, rr.randint(3, 20))}
             try:
                 with world:
                     model = ml.load("ckpt.eqx", fresh)
